@@ -550,6 +550,21 @@ func (e *Env) eval(ex ast.Expr) (SVal, error) {
 		if err != nil {
 			return SVal{}, err
 		}
+		// sort discipline (a contract that compares an observable with a counter is ill-formed: reported, never sent to a solver)
+		switch ex.Op {
+		case token.LAND, token.LOR:
+			if a.K != KBool || b.K != KBool {
+				return SVal{}, fmt.Errorf("sort mismatch: %s applied to non-boolean operands", ex.Op)
+			}
+		case token.LSS, token.LEQ, token.GTR, token.GEQ, token.ADD, token.SUB, token.MUL, token.REM, token.QUO:
+			if a.K != KInt || b.K != KInt {
+				return SVal{}, fmt.Errorf("sort mismatch: %s applied to non-integer operands", ex.Op)
+			}
+		case token.EQL, token.NEQ:
+			if (a.K == KInt) != (b.K == KInt) || (a.K == KBool) != (b.K == KBool) {
+				return SVal{}, fmt.Errorf("sort mismatch: %s between values of different sorts", ex.Op)
+			}
+		}
 		switch ex.Op {
 		case token.LAND:
 			return mkBool(and(a.T, b.T)), nil
